@@ -1,15 +1,17 @@
 // xlate/c16 — regenerates, from logsink/zip/ZipSendProxyThread.go, the facts the ZipSender
 // model was written against (tie A of property C16):
 //
-//   * the default constants,
-//   * the sequence of assignments to the four settings in GetInstance (constant / option
+//   - the default constants,
+//   - the sequence of assignments to the four settings in GetInstance (constant / option
 //     field, guarded by `if o.<field> > 0` or not), in source order,
-//   * the keys and fall-back values read by ApplyConfig,
-//   * the flush-condition expressions of Append, sendAndClear, doZip and SendDirect,
-//   * for every client.SendFlush hand-over: where p.Records came from, whether doZip runs
+//   - the keys and fall-back values read by ApplyConfig,
+//   - the flush-condition expressions of Append, sendAndClear, doZip and SendDirect,
+//   - for every client.SendFlush hand-over: where p.Records came from, whether doZip runs
 //     in between and whether the buffer is reset (reused) afterwards; whether doZip detaches
 //     an uncompressed payload from the buffer and whether the compressed one is fresh,
-//   * whether the Done branch of run drains the queue before the last flush.
+//   - whether the Done branch of run drains the queue before the last flush,
+//   - from lang/pack/ZipPack.go the statements of SetRecords and GetRecords (the counted ReadPack loop
+//     with its bound, its stamps and its append), and the statements of SetTcpClient.
 //
 // It transcribes syntax only and writes `unknown` (which no obligation accepts) for any
 // shape it does not recognise.  Output: Lean data in namespace Gen.C16.
@@ -188,7 +190,7 @@ func main() {
 	}
 	fn := funcs(f)
 	var w bytes.Buffer
-	fmt.Fprintf(&w, "-- generated by xlate/c16 from %s — do not edit\nimport Golib.ZipSender.FactsLoop\n\nnamespace Gen.C16\nopen ZipSender\n\n", "logsink/zip/ZipSendProxyThread.go")
+	fmt.Fprintf(&w, "-- generated by xlate/c16 from %s — do not edit\nimport Golib.ZipSender.FactsLoop\nimport Golib.ZipSender.FactsWire\n\nnamespace Gen.C16\nopen ZipSender\n\n", "logsink/zip/ZipSendProxyThread.go")
 
 	// ---- constants
 	consts := map[string]constant.Value{}
@@ -733,6 +735,97 @@ func main() {
 	}
 	fmt.Fprintf(&w, "/-- ApplyConfig starts with `this.settingsMutex.Lock(); defer …Unlock()` -/\ndef applyConfigLocks : Bool := %v\n", applyLocks)
 	fmt.Fprintf(&w, "/-- reads of a setting field outside GetInstance, ApplyConfig and the RLock-ing getters -/\ndef unguardedSettingReads : List String := [%s]\n\n", strings.Join(bq, ", "))
+
+	// ---- lang/pack/ZipPack.go: SetRecords / GetRecords, and SetTcpClient (interpreted by ZipSender.execSet / execGet / execClient)
+	zstmts := func(fd *ast.FuncDecl) string {
+		if fd == nil {
+			return "[.unknown \"function not found\"]"
+		}
+		var out []string
+		for _, st := range fd.Body.List {
+			s := src(st)
+			switch s {
+			case "this.RecordCount = len(items)":
+				out = append(out, ".setCountLen")
+			case "o := io.NewDataOutputX()":
+				out = append(out, ".newOut")
+			case "this.Records = o.ToByteArray()":
+				out = append(out, ".setRecordsOut")
+			case "return this":
+				out = append(out, ".retThis")
+			case "items := make([]Pack, 0)":
+				out = append(out, ".newItems")
+			case "if this.Records == nil { return nil }":
+				out = append(out, ".nilGuard")
+			case "in := io.NewDataInputX(this.Records)":
+				out = append(out, ".newIn")
+			case "return items":
+				out = append(out, ".retItems")
+			case "this.client = c":
+				out = append(out, ".setClient")
+			default:
+				switch x := st.(type) {
+				case *ast.RangeStmt:
+					if src(x.X) == "items" && x.Value != nil && src(x.Value) == "it" && len(x.Body.List) == 1 && src(x.Body.List[0]) == "o = WritePack(o, it)" {
+						out = append(out, ".writeEach")
+						continue
+					}
+				case *ast.ForStmt:
+					// for i := 0; i < this.<bound>; i++ { p := ReadPack(in); p.<setter>(this.<field>) …; items = append(items, p) }
+					ok := x.Init != nil && src(x.Init) == "i := 0" && x.Post != nil && src(x.Post) == "i++" && x.Cond != nil && len(x.Body.List) >= 1 && src(x.Body.List[0]) == "p := ReadPack(in)"
+					bound := ""
+					if be, isB := x.Cond.(*ast.BinaryExpr); ok && isB && be.Op == token.LSS && src(be.X) == "i" {
+						if se, isS := be.Y.(*ast.SelectorExpr); isS && src(se.X) == "this" {
+							bound = se.Sel.Name
+						}
+					}
+					if ok && bound != "" {
+						var stamps []string
+						appends := false
+						good := true
+						for _, b := range x.Body.List[1:] {
+							if src(b) == "items = append(items, p)" && !appends {
+								appends = true
+								continue
+							}
+							es, isE := b.(*ast.ExprStmt)
+							if !isE || appends {
+								good = false
+								break
+							}
+							call, isC := es.X.(*ast.CallExpr)
+							if !isC || len(call.Args) != 1 {
+								good = false
+								break
+							}
+							fn, isF := call.Fun.(*ast.SelectorExpr)
+							arg, isA := call.Args[0].(*ast.SelectorExpr)
+							if !isF || !isA || src(fn.X) != "p" || src(arg.X) != "this" {
+								good = false
+								break
+							}
+							stamps = append(stamps, "("+lq(fn.Sel.Name)+", "+lq(arg.Sel.Name)+")")
+						}
+						if good {
+							out = append(out, fmt.Sprintf(".readLoop %s [%s] %v", lq(bound), strings.Join(stamps, ", "), appends))
+							continue
+						}
+					}
+				}
+				out = append(out, ".unknown "+lq(s))
+			}
+		}
+		return "[" + strings.Join(out, ", ") + "]"
+	}
+	var zfn map[string]*ast.FuncDecl
+	if zf, err := parser.ParseFile(fset, filepath.Join(*repo, "lang/pack/ZipPack.go"), nil, 0); err == nil {
+		zfn = funcs(zf)
+	} else {
+		zfn = map[string]*ast.FuncDecl{}
+	}
+	fmt.Fprintf(&w, "/-- lang/pack/ZipPack.go, `SetRecords`, statement by statement -/\ndef zipSetRecords : List ZStmt :=\n  %s\n\n", zstmts(zfn["SetRecords"]))
+	fmt.Fprintf(&w, "/-- lang/pack/ZipPack.go, `GetRecords`, statement by statement -/\ndef zipGetRecords : List ZStmt :=\n  %s\n\n", zstmts(zfn["GetRecords"]))
+	fmt.Fprintf(&w, "/-- `SetTcpClient`, statement by statement -/\ndef setTcpClient : List ZStmt :=\n  %s\n\n", zstmts(fn["SetTcpClient"]))
 
 	fmt.Fprintf(&w, "end Gen.C16\n")
 	if *out == "" {
